@@ -260,7 +260,10 @@ class Gen(object):
     if r.random() < 0.2:
       # a data column with a default formula (evaluated for new records only)
       base = typ.split(':')[0]
-      formula = {'Ref': '1', 'RefList': '[1]', 'Int': '7', 'Numeric': '1.5', 'Text': '"dflt"'}.get(base, '')
+      # (a default formula that raises leaves an error value in a DATA cell: for types whose default is
+      # None the error remembers "previous value None")
+      formula = {'Ref': '1', 'RefList': '[1]', 'Int': '7', 'Numeric': '1.5', 'Text': '"dflt"',
+                 'Any': '1/0', 'Date': '1/0', 'ChoiceList': '1/0', 'Choice': '1/0'}.get(base, '')
     return ['AddColumn', tid, cid, {'type': typ, 'isFormula': False, 'formula': formula}]
 
   def ua_remove_column(self, view, tid):
@@ -508,6 +511,11 @@ class Gen(object):
         [['BulkAddRecord', 'People', [None] * 4, {'name': ['a', 'b', 'c', 'd'], 'age': [1, 2, 3, 2]}]],
         [['BulkAddRecord', 'Tasks', [None] * 4, {'title': ['t1', 't2', 't3', 't4'], 'owner': [1, 2, 0, 2],
                                                 'helpers': [['L', 1, 2], None, ['L', 3], ['L', 2, 4]]}]],
+        # one column of People reached through two different relations, and through a RefList
+        [['AddColumn', 'Tasks', 'reviewer', col('reviewer', 'Ref:People')],
+         ['AddColumn', 'Tasks', 'pair', {'type': 'Any', 'isFormula': True, 'formula': '[$owner.name, $reviewer.name]'}],
+         ['AddColumn', 'Tasks', 'hnames', {'type': 'Any', 'isFormula': True, 'formula': 'list($helpers.name)'}]],
+        [['BulkUpdateRecord', 'Tasks', [1, 2, 3], {'reviewer': [2, 3, 1]}]],
       ]
       if self.profile == "twoway":
         out.append([['AddReverseColumn', 'Tasks', r.choice(['owner', 'helpers'])]])
